@@ -399,6 +399,10 @@ def run_property(prop, module, tier):
             new = [v for v in ctx.violations if match_known(prop, v, known) is None]
             if ctx.unmet and not new:
                 raise AnalysisBroken("; ".join(ctx.unmet))
+            if tier == "thorough" and getattr(module, "IRX", True) and not os.environ.get("BSA_NO_IRX"):
+                # independent derivation of the memory orders from the compiler's lowering
+                from . import irx
+                irx.crosscheck(ctx, scratch)
             if tier == "thorough" and not new and "BSA_REPO" not in os.environ and not os.environ.get("BSA_NO_CORPUS"):
                 # the rules are tested both ways against the current tree on every thorough run
                 from . import selftest
